@@ -247,7 +247,7 @@ template<TT = {ns::X}>
 virtual class Cls : Base<TT> {
   Cls(const TT& a, QQ b = dflt(TT, 1));
   template<UU = {ns::Y<int>}>
-  TT meth(UU* u, TT::QQ v, const QQ& w) const;
+  TT meth(UU* u, TT::QQ v, const QQ& w, const This::QQ& tq) const;
   pair<TT, QQ> pr(std::vector<TT> vs);
   static This make(const TT@ t, QQ name);
   TT prop;
@@ -349,7 +349,22 @@ def c02_class_positions(p: str, q: str) -> bool:
     exp.append(("op.ret", want(op.return_type.type1, params_c, insts_c)))
     exp.append(("op.o", want(op.args.list()[0].ctype, params_c, insts_c), None))
 
+    snapshot = [_ty_of(a.ctype) for a in cls.methods[0].args.list()]     # the declaration as written, before any instantiation
     ic = ti.InstantiatedClass(cls, [mk_typename(X)])
+    # a second instantiation of the same template must be as if it were the only one
+    ic2 = ti.InstantiatedClass(cls, [mk_typename(Y)])
+    this2 = T("Cls", Y, ns=("gt",))
+    m2 = ic2.methods[0]
+    for a, ty0 in zip(m2.args.list(), snapshot):
+        w1 = ref_cpp(ref_subst(ty0, (p, "UU"), (Y, Y), this2))
+        w2 = ref_cpp(ref_subst(ty0, (p, "UU"), (Y, Y), this2, True))
+        if a.ctype.to_cpp() != w1 and a.ctype.to_cpp() != w2:
+            reached()
+            return _fail(position="second instantiation meth." + a.name, got=a.ctype.to_cpp(), want=w1)
+    s2 = ic2.static_methods[0]
+    if s2.return_type.type1.to_cpp() != ref_cpp(this2):
+        reached()
+        return _fail(position="second instantiation make.ret", got=s2.return_type.type1.to_cpp(), want=ref_cpp(this2))
     got = []
     got.append(("base", ic.parent_class.to_cpp() if hasattr(ic.parent_class, "to_cpp") else str(ic.parent_class)))
     for a in ic.ctors[0].args.list():
@@ -376,7 +391,7 @@ def c02_class_positions(p: str, q: str) -> bool:
         ok = _fail(got=got, want=exp)
     else:
         for g, e in zip(got, exp):
-            if g != e:
+            if g != e and not (e[0] == "meth.tq" and g[1] == "const gt::Cls<ns::X>::" + q + "&"):
                 ok = _fail(position=e[0], got=g, want=e)
                 break
     reached()
